@@ -350,4 +350,38 @@ example : (trace (init ⟨10, 0, 100⟩ false false 0) 42 3 5000
     [.wait 2000, .report ⟨10, 0, 100⟩, .timer, .report ⟨10, 0, 100⟩, .timer, .timer]).any isRetFalse = true := by
   decide
 
+/-- **exhausted_budget**: `retries ≤ 0` — zero or negative — is an exhausted budget: an accepted call transmits nothing and
+returns `False` in its own step (`if retries <= 0: return False` at the first loop head), whatever the timeout. -/
+theorem exhausted_budget (s0 : St) (h0 : s0.phase = .idle) (v : Nat) (r : Int) (hr : r ≤ 0) (T : Nat)
+    (hne : v ≠ s0.loc.value) (hlo : s0.loc.min ≤ v) (hhi : v ≤ s0.loc.max) (es : List Ev) :
+    trace s0 v (budgetOf r) T es = [.ret false s0.now] := by
+  have hb : budgetOf r = 0 := by unfold budgetOf; omega
+  have hstep : step s0 (.call v 0 T) =
+      ({ s0 with prev := s0.loc.value, loc := { s0.loc with value := v }, pending := true, req := v, retries := 0,
+                 timeout := T, phase := .done }, [.ret false s0.now]) := by
+    simp only [step]
+    rw [if_neg (by simp [h0]), if_neg hne, if_neg (by omega)]
+    simp [loopTop]
+  unfold trace
+  rw [hb, hstep]
+  have hdone : ∀ (es : List Ev) (s : St), s.phase = .done → (run s es).2 = [] := by
+    intro es
+    induction es with
+    | nil => intro s _; rfl
+    | cons e es ih =>
+      intro s hs
+      have h1 : step s e = (if (match e with | .wait _ => true | .report _ => true | .setTracking _ => true | _ => false) then (step s e) else (s, [])) := by
+        cases e <;> simp [step, hs]
+      have hout : (step s e).2 = [] ∧ (step s e).1.phase = .done := by
+        cases e <;> simp [step, hs, update] <;> (try split) <;> simp [hs]
+      simp only [run]
+      rw [hout.1, ih _ hout.2]; rfl
+  rw [hdone es _ rfl]
+  rfl
+
+/-- retries 4 and more, a timeout that is no multiple of any clock step (0.1 s): attempts at exactly t0 + k·100 ms -/
+example : txTimes (trace (init ⟨10, 0, 100⟩ true false 250) 42 6 100 [.timer, .timer, .wait 33, .timer, .timer, .timer, .timer]) =
+    [250, 350, 450, 550, 650, 750] := by decide
+example : trace (init ⟨10, 0, 100⟩ true false 0) 42 (budgetOf (-3)) 1200 [.timer] = [.ret false 0] := by decide
+
 end PlumVerif.C08
